@@ -301,7 +301,39 @@ def run(tier, seed):
         sc.meta["config"] = "exclude=%s" % globs
         meta[sc.name] = (-1, j, [("gen/test_g.py", files["gen/test_g.py"], True, "open")], load_expect(pp), sc.meta["config"], [])
         scs.append(sc)
+    # (fixed) the settings table in every spelling TOML allows - header, quoted key, blanks inside the brackets, dotted
+    # keys, inline tables, a comment on the header line: the table is what the TOML parser finds, never a text search
+    spellings = [
+        "[tool.pytest-language-server]\ndisabled_diagnostics = [\"undeclared-fixture\"]\n",
+        "[tool.\"pytest-language-server\"]\ndisabled_diagnostics = [\"undeclared-fixture\"]\n",
+        "[ tool . pytest-language-server ]\ndisabled_diagnostics = [\"undeclared-fixture\"]\n",
+        "[tool]\npytest-language-server.disabled_diagnostics = [\"undeclared-fixture\"]\n",
+        "[tool]\npytest-language-server = { disabled_diagnostics = [\"undeclared-fixture\"] }\n",
+        "tool.pytest-language-server.disabled_diagnostics = [\"undeclared-fixture\"]\n",
+        "[tool.pytest-language-server] # ours\ndisabled_diagnostics = ['undeclared-fixture']\n",
+        "[tool.'pytest-language-server']\ndisabled_diagnostics = [\n  \"undeclared-fixture\",\n]\n",
+    ]
+    for j, text in enumerate(spellings):
+        files = {"gen/conftest.py": "import pytest\n\n@pytest.fixture\ndef made():\n    return 1\n",
+                 "gen/test_g.py": "def test_g():\n    made()\n"}
+        pp = text.encode()
+        sc = stdio.StdioCase("y%d" % j, files, pyproject=pp)
+        exp = load_expect(pp)
+        sc.disabled = list(exp["disabled_diagnostics"]) if exp else []
+        sc.open("gen/conftest.py"); sc.open("gen/test_g.py")
+        sc.meta["config"] = "table spelled %r" % text.split("\n")[0]
+        meta[sc.name] = (-1, j, [("gen/conftest.py", files["gen/conftest.py"], True, "open"), ("gen/test_g.py", files["gen/test_g.py"], True, "open")],
+                         exp, sc.meta["config"], [])
+        scs.append(sc)
     res, mcases, msp = stdio.run_all(r, scs, workers=12)
+    for (sc, i, step, a, m, k) in res:
+        if sc.name.startswith("y") and not a.startswith(("DIED", "HUNG", "NO-PUBLISH")):
+            off = [x[0] for x in parse_diag(a) if x[0] in sc.disabled]
+            if off or not sc.disabled:
+                msg = (f"stdio case {sc.name} ({sc.meta['config']}): pyproject.toml disables {sc.disabled or 'NOTHING (the oracle could not read the table)'} "
+                       f"but diagnostics with code {off} are published for {step[1]}")
+                v.violation(f"{sc.name}-{i}-disabled", msg, f"# {msg}\n# pyproject.toml:\n" + "".join("# | %s\n" % l for l in sc.pyproject.decode().split("\n"))
+                            + mcases.replay_text(sc.name))
     by = {}
     for (sc, i, step, a, m, k) in res:
         by.setdefault(sc.name, []).append((i, step, a, m, k))
